@@ -235,6 +235,28 @@ impl Check for C18 {
             Op::new("mp_println").s("y"),
         ]];
         v.push(s);
+        // println while a finished, dropped bar waits at the head to be reaped: whatever the
+        // implementation does about its rows, a failure of that draw is reported
+        let mut s = Scenario::new("C18", "multi", 184);
+        s.set("w", 20);
+        s.set("h", 10);
+        s.set("multi", 1);
+        s.threads = vec![vec![
+            Op::new("add").n(0).n(0).n(1).n(10).n(0).n(8).s("{obs}A {pos}").s("").s(""),
+            Op::new("add").n(0).n(0).n(1).n(10).n(0).n(8).s("{obs}B {pos}").s("").s(""),
+            Op::new("add").n(0).n(0).n(1).n(10).n(0).n(8).s("{obs}C {pos}").s("").s(""),
+            Op::new("tick").n(0),
+            Op::new("tick").n(1),
+            Op::new("tick").n(2),
+            Op::new("finish").n(1).n(0).s(""),
+            Op::new("drop_all").n(1),
+            Op::new("finish").n(0).n(0).s(""),
+            Op::new("drop_all").n(0),
+            Op::new("mp_println").s("log"),
+            Op::new("tick").n(2),
+            Op::new("mp_println").s("log2"),
+        ]];
+        v.push(s);
         v
     }
     fn gen(&self, rng: &mut Rng, tier: Tier, index: u64) -> Scenario {
